@@ -599,6 +599,26 @@ lblOuter:
 		i = i + 2
 	}
 	return t, y`),
+		// a loop whose step is a parameter / a value computed in the function (symbolic stride)
+		mk("paramstep", `	t := 0
+	if a <= 0 {
+		return b, x
+	}
+	for i := 0; i < b+6; i += a {
+		t += i
+	}
+	return t, y`),
+		mk("computedstep", `	t := 0
+	if a >= b {
+		t = a*b + len(s)
+	} else {
+		t = 1
+	}
+	st := b&3 + 1
+	for i := 0; i < 20; i += st {
+		t += i
+	}
+	return t, x`),
 		mk("reseedloop", `	t := 0
 	i := 0
 	if b > 1 {
